@@ -162,7 +162,7 @@ def check(ctx):
                  "gate g2 q { }", "def f2() { }", "let b = q ++ r;", "3ns;", "2im;", "true;", "x += 1;", "x[0] = 1;",
                  "c = measure q;", "creg c[2];", "qreg q[2];", "const int n = 1;", "input int k;", "bit b = \"01\";",
                  "switch (x) { case 1 { } }", "return x;", "ctrl @ x q, r;", "pow(2) @ h q;", "f();", "x = (1);", "(x) = 1;",
-                 "[0:1];", "{1, 2};", "a ++ b;", "box { }", "sizeof(a);", "defcalgrammar \"openpulse\";", "include \"stdgates.inc\";",
+                 "[0:1];", "[a, b];", "[a];", "[1, 2, 3];", "{1, 2};", "a ++ b;", "box { }", "sizeof(a);", "defcalgrammar \"openpulse\";", "include \"stdgates.inc\";",
                  "OPENQASM 3.0;", "OPENQASM 3;", "extern f(int) -> int;", "defcal g q { }", "cal { }"]
     extra += first_tok
     cand = sorted({s for v in pool.values() for s in sorted(v)[:40]} | set(extra))
